@@ -11,10 +11,12 @@ CLAIM = dict(
     text='Bounded symbolic checking: for EVERY real scale (left != right, either direction), every track (leftP < rightP) and every value the linear '
          'and logarithmic transforms give a position inside [leftP, rightP) with position + wrap * width == unwrapped position (L2P); log scales refuse '
          'values <= 0. The polyline break at a wrap (Plot._retInterpolateWrapPoints, _filterCrossLineList) is executed symbolically for wraps in -3..3, '
-         'all back-up modes: generated points lie on the track edges, X between the two samples, none when both ends are off scale on the same side.',
+         'all back-up modes: generated points lie on the track edges, X between the two samples, none when both ends are off scale on the same side. '
+         'Whole plots: 1..2 curves on any of 4 tracks in any of 4 modes over a signal that runs up to 50 scale widths off scale are plotted to SVG and every polyline point '
+         'is checked against the track of its own curve.',
     note='Trusted: z3 NRA, CrossHair, py2smt; log10 is uninterpreted with the instances log10(a/b) = log10 a - log10 b and injectivity on the two scale '
-         'edges. Outside: binary64 rounding; the SVG document production from whole log passes (29 XML formats, numpy, file I/O) - only the arithmetic '
-         'every curve point goes through is decided.',
+         'edges. Outside: binary64 rounding in the SMT obligations; the XML-configured (non LIS) plot formats. Whole plots are decided only on the bounded '
+         'family of LIS log passes of obligation svg_curves_inside_own_track (every point parsed back from the SVG).',
 )
 META = dict(
     explanation='Real-arithmetic encodings of PRESCfg.LineTransLin/LineTransLog10 (__init__, L2P, wrapPos) + CrossHair conditions on Plot wrap interpolation.',
@@ -152,5 +154,11 @@ def obligations(tier):
             Ob('wrap_interpolation_points', 'ch', 'wrapPrev != wrapNow in -3..3, back-up modes (0,0) (-1,1) (-2,2) (-1,0) (0,1), integer X pair -5..5 + -4..4',
                ['util.plot.Plot.Plot._retInterpolateWrapPoints', 'Plot._filterCrossLineList', 'PRESCfg.LineTransBase.offScale'],
                harness='C19_plot', func='interp_points', timeout=1500, tiers=('thorough',)),
+            Ob('svg_curves_inside_own_track', 'ch', 'reference-encoded LIS log pass (25 frames, signal crossing zero, amplitudes 4 / 40 / 400 on a -8..8 linear or 0.25..2048 log scale) '
+               'plotted through PlotReadLIS with a FILM table and a PRES table of 1..2 curves: tracks T1/T2/T3/T23 x modes none/WRAP/SHIF/GRAD per curve, '
+               'both curves from one output channel or from two',
+               ['util.plot.Plot.PlotReadLIS.plotLogPassLIS', 'Plot.Plot._plotSingleOutput/_interpolateBackup/_retInterpolateWrapPoints', 'PRESCfg.PresCfgLISRead', 'FILMCfg.FilmCfgLISRead.interpretTrac',
+                'PRESCfg.LineTransLin/LineTransLog10.wrapPos', 'util.plot.SVGWriter', 'LIS.core.LogPass.setFrameSet'],
+               harness='C19_svg', func='svg_curves_in_track', timeout=170 if q else 600, parts=16),
             Ob('crossline_filter', 'ch', '0..12 crossing lines, MAX_BACKUP_TRACK_CROSSING_LINES as configured', ['util.plot.Plot.Plot._filterCrossLineList'],
                harness='C19_plot', func='filter_lines', timeout=120 if q else 600)]
